@@ -55,9 +55,15 @@ func (r *ReduceMin) Init(n *onnx.NodeProto) error {
 func (r *ReduceMin) Apply(inputs []tensor.Tensor) ([]tensor.Tensor, error) {
 	input := tensor.New(tensor.WithBacking(inputs[0].Data()), tensor.WithShape(inputs[0].Shape()...))
 
+	nDims := len(input.Shape())
+
+	if !ops.AllInRange(r.axes, -nDims, nDims-1) {
+		return nil, ops.ErrNotAllAxesInRange(nDims, nDims)
+	}
+
 	axes := make([]int, len(r.axes))
 	for i, axis := range r.axes {
-		axes[i] = ops.ConvertNegativeAxis(axis, len(input.Shape()))
+		axes[i] = ops.ConvertNegativeAxis(axis, nDims)
 	}
 
 	out, err := input.Min(axes...)
@@ -66,9 +72,16 @@ func (r *ReduceMin) Apply(inputs []tensor.Tensor) ([]tensor.Tensor, error) {
 	}
 
 	if r.keepDims {
-		newShape := input.Shape()
+		newShape := input.Shape().Clone()
 		for _, axes := range axes {
 			newShape[axes] = 1
+		}
+
+		// Without axes, all dimensions are reduced.
+		if len(axes) == 0 {
+			for i := range newShape {
+				newShape[i] = 1
+			}
 		}
 
 		err := out.Reshape(newShape...)
